@@ -311,6 +311,29 @@ static void mutate_signature(const pair_t *p, jwt_checker_t *c, const char *base
 			sprintf(m, "%s%c", base, ch);
 			emit(p, c, m, "sig-extended");
 		}
+		/* 256 and 512 more characters (alphabet, foreign and high-bit): a text comparison that loses the high bits of a
+		 * length difference would take them for nothing */
+		{
+			static const char fill[] = { 'A', 'x', '!', (char)0x80, (char)0xff };
+			for (unsigned f = 0; f < sizeof fill; f++)
+				for (int n = 256; n <= 768; n += 256) {
+					char *big = malloc(strlen(base) + n + 1);
+					strcpy(big, base);
+					memset(big + strlen(base), fill[f], n);
+					big[strlen(base) + n] = 0;
+					emit(p, c, big, "sig-extended-by-multiple-of-256");
+					free(big);
+				}
+		}
+		/* a high-bit byte in place of a signature character (its low bits equal to the character, then 0x80 and 0xff) */
+		for (size_t pos = 0; pos < l3 && pos < 120; pos++) {
+			strcpy(m, base);
+			m[ilen + 1 + pos] = (char)(seg3[pos] | 0x80); emit(p, c, m, "sig-high-bit-char");
+			if (pos % 8 == 0) {
+				m[ilen + 1 + pos] = (char)0x80; emit(p, c, m, "sig-high-bit-char");
+				m[ilen + 1 + pos] = (char)0xff; emit(p, c, m, "sig-high-bit-char");
+			}
+		}
 		sprintf(m, "%s==", base); emit(p, c, m, "sig-extended");
 		sprintf(m, "%s=A", base); emit(p, c, m, "sig-extended");
 		sprintf(m, "%s.%s", base, seg3); emit(p, c, m, "sig-doubled");
@@ -1001,6 +1024,25 @@ static void switching_bfs(void)
 			}
 			vf_nontrivial_case();
 		}
+	/* an exact name followed by 256 / 512 more characters is no name */
+	if (vf_case("provider switching: exact names extended by 256 and 512 characters")) {
+		static const char *bn[2] = { "openssl", "gnutls" };
+		for (int start = 0; start < 2; start++)
+			for (int b = 0; b < 2; b++)
+				for (int n = 256; n <= 512; n += 256) {
+					char nm[600];
+					strcpy(nm, bn[b]);
+					memset(nm + strlen(bn[b]), 'x', n);
+					nm[strlen(bn[b]) + n] = 0;
+					jwt_set_crypto_ops(bn[start]);
+					int rc = jwt_set_crypto_ops(nm);
+					sw_transitions++;
+					vf_obs(rc);
+					if (!rc || strcmp(jwt_get_crypto_ops(), bn[start]))
+						vf_violation("switch|provider-differs", "%s followed by %d characters: returned %d, provider now %s (was %s)", bn[b], n, rc, jwt_get_crypto_ops(), bn[start]);
+				}
+		vf_nontrivial_case();
+	}
 	jwt_set_crypto_ops("openssl");
 	vf_count("=switch_names", NNAMES);
 	vf_count("=states", sw_states);
